@@ -20,6 +20,7 @@ the sequentialised schedule up to the crash point, the teardown action(s), then 
     ans <k> n | e <id> | v <id>      sink k answers the oldest request it holds, then the backward
                                      loops run → t | f | none{ | w<w>:<resp>}
     pwrite <w> <v> / pans <k> <a>    the same two steps after the crash point → n<cnt> / t | f | none
+    dropw <w> <r> <write>            the held-back drop notice of reader r for that write number is delivered now → u | none
     wwrite <w> <v> / relay           the requester's write alone → n<cnt>; then the node loops → u
     bwdlate <w>                      the backward listener of the node consuming w makes its own Open only now → u
     recv <w>                         the requester's `<-Receive()` → <resp> | closed | blocked | notowed
@@ -321,6 +322,18 @@ def stepLine (st : St) (toks : List String) : St × String :=
         (st2, ret ++ newPushed st2 before)
       | [] => (st, "none")
     | _, _ => (st, "bad-op")
+  | ["dropw", w, r, wr] =>
+    -- the held-back drop notice of reader r of writer w that belongs to write number wr is delivered
+    -- now, whatever its position (`Teardown.deliverDropK`), then the node loops run
+    match w.toNat?, r.toNat?, wr.toNat? with
+    | some w, some r, some wr =>
+      match ((st.sys.comp w).w.drops r).findIdx? (fun e => e.2 == wr) with
+      | some k =>
+        let p := deliverDropK st.rule (st.sys.comp w) r k
+        let (st2, _) := relayAll { st with sys := setComp st.sys w p.1 } 64
+        (st2, "u")
+      | none => (st, "none")
+    | _, _, _ => (st, "bad-op")
   | ["wwrite", w, v] =>
     -- the requester's write alone: the node loops do not run yet (the request rests in the reader)
     match w.toNat?, v.toNat? with
